@@ -75,3 +75,68 @@ Fixpoint strace (v : variant) (e : env) (p1 p2 : N) (s : sys) (l : list (side * 
 Definition run_two (v : variant) (e : env) (p1 p2 : N) (target : option file) (temps : list (N * file))
            (sch : list bool) (xs1 xs2 : list (instr * fault)) : string :=
   "[" ++ join "," (strace v e p1 p2 (sys0 (mk_fs target temps)) (merge sch xs1 xs2)) ++ "]".
+
+(* ---------------------------------------------------------------------------------------------
+   C09 *)
+From Verif Require Import Sys.Actions.
+
+Fixpoint lookup_modf (tbl : list (str * option str)) (c : str) : option str :=
+  match tbl with
+  | [] => None
+  | (k, v) :: r => if str_eqb k c then v else lookup_modf r c
+  end.
+
+Fixpoint afs_of (l : list (N * node)) : Actions.fs :=
+  match l with
+  | [] => fun _ => None
+  | (p, n) :: r => Actions.upd (afs_of r) p (Some n)
+  end.
+
+Definition show_node (o : option node) : string :=
+  match o with
+  | None => "null"
+  | Some (NFile c g) => show_obj [("f", show_str c); ("gen", show_N g)]
+  | Some (NLink t) => show_obj [("l", show_N t)]
+  | Some NDir => show_string "dir"
+  end.
+
+Definition show_errkind (k : errkind) : string :=
+  show_string (match k with ErrBadFilename => "badfilename" | ErrRead => "read" | ErrModify => "modify"
+                          | ErrEOF => "eof" | ErrSymlink => "symlink" end).
+
+Definition show_outcome (o : outcome) : string :=
+  match o with
+  | Normal => show_string "normal" | Abort => show_string "abort" | ExitOne => show_string "exit1"
+  | Error k => "[" ++ show_string "error" ++ "," ++ show_errkind k ++ "]" | Fatal => show_string "fatal"
+  end.
+
+Definition show_event (e : event) : string :=
+  match e with
+  | EvPrint p c => "[" ++ show_string "print" ++ "," ++ show_N p ++ "," ++ show_str c ++ "]"
+  | EvPrompt p => "[" ++ show_string "prompt" ++ "," ++ show_N p ++ "]"
+  | EvAborted => "[" ++ show_string "aborted" ++ "]"
+  | EvExec p => "[" ++ show_string "exec" ++ "," ++ show_N p ++ "]"
+  | EvWrite p c => "[" ++ show_string "write" ++ "," ++ show_N p ++ "," ++ show_str c ++ "]"
+  end.
+
+Definition show_action (a : action) : string :=
+  show_string (match a with
+               | Print => "print" | Replace => "replace" | IfChanged => "ifchanged" | Query => "query" | Diff => "diff"
+               | Exit1 => "exit1" | Execute => "execute" | SymErr => "sym_error" | SymFollow => "sym_follow"
+               | SymSkip => "sym_skip" | SymReplace => "sym_replace" end).
+
+Definition run_tool (fx : fixes) (tbl : list (str * option str)) (tty : bool) (opts : list cli_option)
+           (args : list arg) (answers : list str) (files : list (N * node)) (gen0 : N) (watch : list N) : string :=
+  match fold_options fx tty opts with
+  | None => show_obj [("parse", show_bool false)]
+  | Some acts =>
+      let r := process fx (lookup_modf tbl) acts args answers (afs_of files) gen0 in
+      show_obj [("parse", show_bool true);
+                ("actions", show_list show_action acts);
+                ("exit", show_N (rexit r));
+                ("errors", show_list (show_pair show_N show_errkind) (rerrors r));
+                ("log", show_list (show_pair show_N show_outcome) (rlog r));
+                ("fatal", show_bool (rfatal r));
+                ("fs", show_list (fun p => show_pair show_N show_node (p, rfs r p)) watch);
+                ("out", show_list show_event (rout r))]
+  end.
